@@ -125,3 +125,45 @@ Proof.
 Qed.
 
 End L.
+
+Section L2.
+Variable terms : list (nat * Z).
+Variable rules : list rrule.
+Notation cg' := (cg terms rules).
+Notation conv' := (conv terms).
+Hypothesis no_rule_for_a_terminal : forall s rhs0, In (s, rhs0) (arules rules) -> is_term terms s = false.
+
+Lemma map_conv_split l al x be : map conv' l = al ++ N x :: be ->
+  exists l1 l2, l = l1 ++ x :: l2 /\ al = map conv' l1 /\ be = map conv' l2 /\ is_term terms x = false.
+Proof.
+  revert al. induction l as [|s l IH]; intros al E.
+  - destruct al; discriminate.
+  - destruct al as [|a al]; simpl in E.
+    + injection E as E1 E2. apply conv_N in E1. destruct E1 as [Es ->].
+      exists [], l. repeat split; auto.
+    + injection E as E1 E2. destruct (IH _ E2) as (l1 & l2 & -> & -> & -> & Ht).
+      exists (s :: l1), l2. repeat split; auto. simpl. now rewrite E1.
+Qed.
+
+(* "accessible" in the definition model is top-down reachability in the recognition theory (in a productive grammar:
+   the symbols to the left of the occurrence must derive something) *)
+Theorem reachable_reach : Viable.productive cg' -> is_term terms n_axiom = false -> forall x, is_term terms x = false ->
+  (ReadGrammarSem.reachable (arules rules) n_axiom x <-> exists p, reach cg' n_axiom p x).
+Proof.
+  intros HP Hax x Hx. split.
+  - intros H. revert Hx. induction H as [|y rhs0 x Hy IH Hin Hx']; intros Hx.
+    + exists []. constructor.
+    + destruct (IH (no_rule_for_a_terminal _ _ Hin)) as (p1 & Hp1).
+      apply in_split in Hx'. destruct Hx' as (l1 & l2 & ->).
+      assert (Hr : In (crule terms (y, l1 ++ x :: l2)) cg') by (unfold cg; apply in_map; exact Hin).
+      destruct (productive_form cg' HP _ Hr (map conv' l1)) as (p2 & Hp2).
+      { simpl. rewrite map_app. intros s Hs. apply in_or_app. left. exact Hs. }
+      exists (p1 ++ p2). eapply r_step with (r := crule terms (y, l1 ++ x :: l2)) (al := map conv' l1) (be := map conv' l2); eauto.
+      simpl. rewrite map_app. simpl. unfold conv at 2. rewrite Hx. reflexivity.
+  - intros (p & H). clear Hx. induction H as [|p1 p2 r al x be Hre IH Hr Hrhs Hal].
+    + constructor.
+    + unfold cg in Hr. apply in_map_iff in Hr. destruct Hr as ([y rhs0] & <- & Hin). simpl in *.
+      destruct (map_conv_split _ _ _ _ Hrhs) as (l1 & l2 & -> & _ & _ & _).
+      eapply rf_step; [exact IH | exact Hin | apply in_or_app; right; left; reflexivity].
+Qed.
+End L2.
